@@ -97,7 +97,7 @@ def scaled(family, data, f):
     return d
 
 
-def store_rate(acc, repo, sp1, sp2, data, otherkey=False, variant=None):
+def store_rate(acc, repo, sp1, sp2, data, otherkey=False, variant=None, metastable=None):
     """write `data` for (sp1, sp2) with the repository's own functions under key variant 0 / 1
     (otherkey=True is variant 1: the file exists but the key asked for with variant 0 does not)"""
     from cherab.openadas import repository as R
@@ -105,6 +105,8 @@ def store_rate(acc, repo, sp1, sp2, data, otherkey=False, variant=None):
     n = acc.name
     v = (1 if otherkey else 0) if variant is None else variant
     ch, tr, ms = variant_key(acc, v)
+    if metastable is not None:
+        ms = metastable
     adf11 = lambda: {"ne": d["ne"], "te": d["te"], "rates": d["rate"]}
     if n == "ionisation_rate":
         R.add_ionisation_rate(sp1, ch, adf11(), repository_path=repo)
@@ -142,9 +144,18 @@ def store_wavelength(acc, repo, sp1, sp2, value, variant=0):
     R.add_wavelength(s, ch, tr, value, repository_path=repo)
 
 
-def call(acc, adas, sp1, sp2, variant=0):
+def call(acc, adas, sp1, sp2, variant=0, argform=0):
+    """argform 0: Python int charge, tuple transition; 1: numpy integer charge / metastable, transition as a list of
+    numpy integers; 2: transition levels as strings"""
     n = acc.name
     ch, tr, ms = variant_key(acc, variant)
+    if argform == 1:
+        import numpy as np
+        ch = np.int64(ch)
+        ms = None if ms is None else np.int32(ms)
+        tr = None if tr is None else [np.int64(tr[0]), np.int16(tr[1])]
+    elif argform == 2 and tr is not None:
+        tr = (str(tr[0]), str(tr[1]))
     if n == "wavelength":
         return adas.wavelength(sp1, ch, tr)
     if n in ("ionisation_rate", "recombination_rate", "line_radiated_power_rate", "continuum_radiated_power_rate",
@@ -167,10 +178,34 @@ def call(acc, adas, sp1, sp2, variant=0):
     raise KeyError(n)
 
 
-def make_adas(repo, pe, null, fb):
+def make_adas(repo, pe, null, fb, form=0):
+    """the provider; form 0: keyword arguments, 1: positional, 2: flags as ints, 3: only the flags that differ from
+    the defaults are passed (default arguments vs explicit ones).  repo None: the default repository path"""
     from cherab.openadas import OpenADAS
+    if form == 1:
+        return OpenADAS(repo, pe, null, fb)
+    if form == 2:
+        return OpenADAS(repo, int(pe), int(null), int(fb))
+    if form == 3:
+        kw = {}
+        if repo is not None:
+            kw["data_path"] = repo
+        if pe:
+            kw["permit_extrapolation"] = True
+        if null:
+            kw["missing_rates_return_null"] = True
+        if fb:
+            kw["wavelength_element_fallback"] = True
+        return OpenADAS(**kw)
     return OpenADAS(data_path=repo, permit_extrapolation=pe, missing_rates_return_null=null,
                     wavelength_element_fallback=fb)
+
+
+def default_repository():
+    """(path, usable): the repository OpenADAS() uses without data_path; usable only inside the check's scratch HOME"""
+    from cherab.openadas.repository import DEFAULT_REPOSITORY_PATH as D
+    sc = os.environ.get("VERIF_SCRATCH", "")
+    return D, bool(sc) and os.path.abspath(D).startswith(os.path.abspath(sc) + os.sep)
 
 
 def fresh_repo(base, name):
@@ -224,12 +259,76 @@ def err_name(e):
     return ERR.get(type(e), "ErrOther")
 
 
-def evalpt(rate, args):
-    """('val', float) | ('raise', coq error name, message) | ('bad', text)"""
+def evalpt(rate, args, style=0):
+    """('val', float) | ('raise', coq error name, message) | ('bad', text)
+    style 0: rate(*floats); 1: rate.evaluate(*floats) (the cpdef entry point); 2: numpy float64 scalars, and Python ints
+    for integral values"""
     try:
-        v = rate(*args)
+        if style == 1:
+            v = rate.evaluate(*args)
+        elif style == 2:
+            import numpy as np
+            v = rate(*[int(a) if (float(a).is_integer() and abs(a) < 2 ** 53 and not (a == 0 and math.copysign(1, a) < 0))
+                       else np.float64(a) for a in args])
+        else:
+            v = rate(*args)
     except Exception as e:                      # every exception type is recorded, none is swallowed
         return ("raise", err_name(e), "%s: %s" % (type(e).__name__, str(e)[:120]))
     if isinstance(v, float) and math.isfinite(v):
-        return ("val", v)
+        return ("val", float(v))
     return ("bad", repr(v))
+
+
+def apply_form(family, data, form):
+    """the same numbers handed to the repository's add_* functions in another container form"""
+    import numpy as np
+    if form == "list":
+        return copy.deepcopy(data)
+
+    def conv(v):
+        if not isinstance(v, list):
+            return v
+        a = np.array(v, dtype=np.float64)
+        if form == "tuple":
+            tup = lambda x: tuple(tup(y) for y in x) if isinstance(x, list) else x
+            return tup(v)
+        if form == "ndarray":
+            return a
+        if form == "fortran-readonly":
+            a = np.asfortranarray(a)
+            a.setflags(write=False)
+            return a
+        if form == "float32":
+            return a.astype(np.float32)
+        if form == "strided":
+            big = np.zeros(tuple(2 * n for n in a.shape))
+            view = big[tuple(slice(None, None, 2) for _ in a.shape)]
+            view[...] = a
+            return view
+        raise KeyError(form)
+    return {k: conv(v) for k, v in data.items()}
+
+
+def direct_rate(acc, data, wavelength, pe, species_obj, how):
+    """the rate class built directly (not through the provider) from numpy data; how 0: extrapolate passed by keyword,
+    1: positionally, 2: omitted when False (the default)"""
+    import numpy as np
+    from cherab.openadas import rates as RT
+    d = {k: (np.array(v, dtype=np.float64) if isinstance(v, list) else v) for k, v in data.items()}
+    n = acc.name
+    cls, pre = {
+        "ionisation_rate": (RT.IonisationRate, (d,)), "recombination_rate": (RT.RecombinationRate, (d,)),
+        "thermal_cx_rate": (RT.ThermalCXRate, (d,)),
+        "impact_excitation_pec": (RT.ImpactExcitationPEC, (wavelength, d)),
+        "recombination_pec": (RT.RecombinationPEC, (wavelength, d)), "thermal_cx_pec": (RT.ThermalCXPEC, (wavelength, d)),
+        "beam_stopping_rate": (RT.BeamStoppingRate, (d,)), "beam_population_rate": (RT.BeamPopulationRate, (d,)),
+        "beam_emission_pec": (RT.BeamEmissionPEC, (d, wavelength)), "beam_cx_pec": (RT.BeamCXPEC, (MS, wavelength, d)),
+        "line_radiated_power_rate": (RT.LineRadiationPower, (species_obj, CH, d)),
+        "continuum_radiated_power_rate": (RT.ContinuumPower, (species_obj, CH, d)),
+        "cx_radiated_power_rate": (RT.CXRadiationPower, (species_obj, CH, d)),
+    }[n]
+    if how == 1:
+        return cls(*pre, pe)
+    if how == 2 and not pe:
+        return cls(*pre)
+    return cls(*pre, extrapolate=pe)
